@@ -374,6 +374,9 @@ class Runner:
             print(f"VIOLATION property={pid} replay={path}")
             log(f"  {what}")
             violations = len(new_failures)
+            if os.environ.get("VERIF_VERBOSE"):
+                for _, w, _ in new_failures[1:60]:
+                    log(f"  also: {w[:300]}")
         elif self.broken:
             kind, name, detail = self.broken[0]
             path = write_replay(pid, {"kind": "unchecked", "unchecked": f"{kind}: {name}",
